@@ -2,6 +2,7 @@ SPECIFICATION TSpec
 CONSTANTS
   Node = {"n1", "n2", "n3", "n4", "n5"}
   Active = {"n1", "n2", "n3", "n4", "n5"}
+  Class = {"dsn"}
   MaxHops = 4
   MaxPurges = 64
   MaxLoss = 1000
